@@ -384,6 +384,25 @@ fn run_history(
                 crate::verif_hooks::set_before_write(None);
                 let rec = sim.nc.take();
                 rep.count_class(&format!("fincrash:{}", if n.get() >= 2 { "crashed" } else { "nothing-to-write" }));
+                // what every start reads unconditionally (subcmds.rs: Peers::new(.., storage.get_last_check_point()))
+                // must be readable after the crash
+                let storage = sim.env.storage.clone();
+                if let Err(e) = catch(move || {
+                    let (idx, _cp) = storage.get_last_check_point();
+                    let max = storage.get_max_check_point_index();
+                    assert_eq!(idx, max, "last check point index");
+                    let _ = storage.get_check_points(max, 1);
+                }) {
+                    rep.violate(
+                        "C08|store-unusable-after-crash|check-point-finalization",
+                        "after a crash between the store writes of a check point finalization the last check point cannot be read: the client aborts at every start",
+                        {
+                            let mut h = history_text();
+                            h.push(format!("# start-up read panics: {}", e.chars().take(160).collect::<String>()));
+                            h
+                        },
+                    );
+                }
                 if n.get() < 2 {
                     // nothing was finalized: the operation was an ordinary (empty) finalization
                 }
